@@ -324,7 +324,8 @@ func (p *sigParser) parseType() (*Type, error) {
 		return StructOf(name, fields, members), nil
 	default:
 		k, ok := letterKinds[c]
-		if !ok {
+		if !ok || k == KRaw { // `r` is only the tag of a top-level dynamic value, not a signature
+
 			return nil, fmt.Errorf("unexpected %q at %d in %q", c, p.pos, p.s)
 		}
 		p.pos++
